@@ -170,6 +170,9 @@ func (na *nilAnalysis) derefs(sel *ast.SelectorExpr) bool {
 			return true
 		}
 		m = m.Origin()
+		if mf := p.FuncOf[m]; mf != nil {
+			m = mf.Obj.Origin() // a wrapper stands for its implementation
+		}
 		if safe, known := na.nilSafe[m]; known {
 			return !safe
 		}
